@@ -748,6 +748,9 @@ impl PreExp {
                 let value = v.as_primitive(context, fn_context)?;
                 match value.apply_unary_op(**op) {
                     Ok(value) => Ok(value),
+                    Err(e @ OperatorError::Overflow { .. }) => {
+                        Err(TransformError::Other(e.to_string()).add_span(op.span()))
+                    }
                     Err(_) => Err(TransformError::from_wrong_unop(
                         **op,
                         value.get_type(),
